@@ -877,7 +877,116 @@ let handle line =
   | "N" :: toks -> handle_multi_tx line toks
   | _ -> failwith ("unparsable line: " ^ clip line)
 
+
+(* ---------------------------------------------------------------- action-sequence tie (Program.v), mode `wire` *)
+let act_text = function
+  | RScan -> "ok := r.sc.Scan()"
+  | RResetFrame -> "r.frame = frame{}"
+  | RUnmarshalToken -> "r.frame.unmarshalBinary(r.sc.Bytes())"
+  | RInterceptDecoded -> "r.opts.frameInterceptor(r.frame.decodeFrame())"
+  | TDeclFrame -> "var scf frame"
+  | TEncode -> "scf.encodeFrame(f)"
+  | TMakeBuf -> "data := make([]byte, lengthOfFrame)"
+  | TMarshal -> "scf.marshalBinary(data)"
+  | TIntercept -> "t.opts.frameInterceptor(f)"
+
+let node_text (recv : string) (n : node) : string =
+  match n with
+  | NAct a -> act_text a
+  | NIf COk -> "if ok"
+  | NIf CHasInterceptor -> "if " ^ recv ^ ".opts.frameInterceptor != nil"
+  | NIf CCtxDeadline -> "if deadline, ok := ctx.Deadline(); ok"
+  | NIfErr ESetWriteDeadline -> "if err := t.conn.SetWriteDeadline(deadline); err != nil"
+  | NIfErr EWrite -> "if _, err := t.conn.Write(data); err != nil"
+  | NReturn RetOk -> "return ok"
+  | NReturn RetWrapErr -> "return fmt.Errorf(\"transmit frame: %w\", err)"
+  | NReturn RetNil -> "return nil"
+
+(* a reference function = its signature line + nodes (depth, text); the two proved programs come from the
+   extracted Coq constants (bodies start at depth 1), the remaining small functions are reference texts *)
+let of_prog recv sig_ (p : (nat * node) list) =
+  (0, sig_) :: lmap (fun (d, n) -> (1 + int_of_nat d, node_text recv n)) p
+
+let wire_refs : (string * (int * string) list) list =
+  [ ("Receiver.Receive", of_prog "r" "func() bool" receive_prog);
+    ("Transmitter.TransmitFrame", of_prog "t" "func(ctx context.Context, f can.Frame) error" transmit_prog);
+    ("NewReceiver",
+     [ (0, "func(rc io.ReadCloser, opt ...ReceiverOption) *Receiver"); (1, "opts := receiverOpts{}");
+       (1, "for _, f := range opt"); (2, "f(&opts)"); (1, "sc := bufio.NewScanner(rc)"); (1, "sc.Split(scanFrames)");
+       (1, "return &Receiver{ rc: rc, opts: opts, sc: sc, }") ]);
+    ("scanFrames",
+     [ (0, "func(data []byte, _ bool) (int, []byte, error)"); (1, "if len(data) < lengthOfFrame");
+       (2, "return 0, nil, nil"); (1, "return lengthOfFrame, data[0:lengthOfFrame], nil") ]);
+    ("Receiver.HasErrorFrame", [ (0, "func() bool"); (1, "return r.frame.isError()") ]);
+    ("Receiver.Frame", [ (0, "func() can.Frame"); (1, "return r.frame.decodeFrame()") ]);
+    ("Receiver.ErrorFrame", [ (0, "func() ErrorFrame"); (1, "return r.frame.decodeErrorFrame()") ]);
+    ("Receiver.Err", [ (0, "func() error"); (1, "return r.sc.Err()") ]);
+    ("Receiver.Close", [ (0, "func() error"); (1, "return r.rc.Close()") ]);
+    ("ReceiverFrameInterceptor",
+     [ (0, "func(i FrameInterceptor) ReceiverOption"); (1, "return func(o *receiverOpts) { o.frameInterceptor = i }") ]);
+    ("NewTransmitter",
+     [ (0, "func(conn net.Conn, opt ...TransmitterOption) *Transmitter"); (1, "opts := transmitterOpts{}");
+       (1, "for _, f := range opt"); (2, "f(&opts)"); (1, "return &Transmitter{ conn: conn, opts: opts, }") ]);
+    ("Transmitter.TransmitMessage",
+     [ (0, "func(ctx context.Context, m can.Message) error"); (1, "f, err := m.MarshalFrame()"); (1, "if err != nil");
+       (2, "return fmt.Errorf(\"transmit message: %w\", err)"); (1, "return t.TransmitFrame(ctx, f)") ]);
+    ("Transmitter.Close", [ (0, "func() error"); (1, "return t.conn.Close()") ]);
+    ("TransmitterFrameInterceptor",
+     [ (0, "func(i FrameInterceptor) TransmitterOption"); (1, "return func(o *transmitterOpts) { o.frameInterceptor = i }") ]) ]
+
+let wire_main () =
+  let fns : (string, (int * string) list ref) Hashtbl.t = Hashtbl.create 16 in
+  let order = ref [] and whereis = Hashtbl.create 16 in
+  let errors = ref 0 and bad = ref 0 and ended = ref false in
+  (try
+     while true do
+       let l = input_line stdin in
+       match split_ws l with
+       | "SWFUNC" :: fn :: wh :: _ ->
+           Hashtbl.replace fns fn (ref []);
+           Hashtbl.replace whereis fn wh;
+           order := !order @ [ fn ]
+       | "SW" :: fn :: d :: rest ->
+           let r = Hashtbl.find fns fn in
+           r := !r @ [ (int_of_string d, String.concat " " rest) ]
+       | "SWERR" :: _ -> incr errors; print_endline l
+       | [ "SWEND" ] -> ended := true
+       | _ -> ()
+     done
+   with End_of_file -> ());
+  let total = ref 0 and equal = ref 0 in
+  let eqb (a : int * string) b = a = b in
+  List.iter
+    (fun fn ->
+      let p = !(Hashtbl.find fns fn) in
+      total := !total + llen p;
+      match List.assoc_opt fn wire_refs with
+      | None ->
+          incr bad;
+          Printf.printf "SWUNKNOWN %s %s || function has no reference program\n" fn (Hashtbl.find whereis fn)
+      | Some q -> (
+          match Model.first_diff eqb p q with
+          | None -> incr equal
+          | Some i ->
+              incr bad;
+              let i = int_of_nat i in
+              let show l = match List.nth_opt l i with Some (d, t) -> Printf.sprintf "depth %d: %s" d t | None -> "(program ends)" in
+              Printf.printf "SWDIFF %s node=%d %s || expected: %s || found: %s\n" fn i (Hashtbl.find whereis fn) (show q) (show p)))
+    !order;
+  List.iter
+    (fun (fn, _) ->
+      if not (Hashtbl.mem fns fn) then begin
+        incr bad;
+        Printf.printf "SWMISSING %s - || function of the reference not found in the source\n" fn
+      end)
+    wire_refs;
+  if not !ended then begin incr errors; print_endline "SWERR ?:0 extractor output ends without SWEND" end;
+  Printf.printf
+    "SWSTAT {\"functions\": %d, \"nodes\": %d, \"functions_equal_to_reference\": %d, \"proved_programs\": 2, \"extractor_errors\": %d, \"bad\": %d}\n"
+    (llen !order) !total !equal !errors !bad
+
 let () =
+  if Array.length Sys.argv > 1 && Sys.argv.(1) = "wire" then (wire_main (); exit 0);
   (try
      while true do
        let l = input_line stdin in
